@@ -30,7 +30,12 @@ func (writer *DirectoryFileWriter) WriteFile(file *File) error {
 		return err
 	}
 
-	file.Component.WriteHTMLTo(out)
+	_, err = file.Component.WriteHTMLTo(out)
+	if err != nil {
+		out.Close()
+
+		return err
+	}
 
 	return out.Close()
 }
